@@ -24,14 +24,22 @@ type persistSigma struct {
 	L             byte // store lock held (n / w / r)
 	Rg            byte // Append happened in the currently open locked region
 	G             byte // inside a goroutine n/y
+	Cx            byte // a cancel function of a derived context has been called n/y
 }
 
 func (s persistSigma) String() string {
-	return fmt.Sprintf("%d%d%d%d%d%c%c%c", cap2(s.A), cap2(s.H), cap2(s.O), cap2(s.S), cap2(s.C), s.L, s.Rg, s.G)
+	if s.Cx == 0 {
+		s.Cx = 'n'
+	}
+	return fmt.Sprintf("%d%d%d%d%d%c%c%c%c", cap2(s.A), cap2(s.H), cap2(s.O), cap2(s.S), cap2(s.C), s.L, s.Rg, s.G, s.Cx)
 }
 func parsePersist(x string) persistSigma {
 	d := func(i int) int { return int(x[i] - '0') }
-	return persistSigma{A: d(0), H: d(1), O: d(2), S: d(3), C: d(4), L: x[5], Rg: x[6], G: x[7]}
+	ps := persistSigma{A: d(0), H: d(1), O: d(2), S: d(3), C: d(4), L: x[5], Rg: x[6], G: x[7], Cx: 'n'}
+	if len(x) > 8 {
+		ps.Cx = x[8]
+	}
+	return ps
 }
 
 type persistRule struct {
@@ -121,7 +129,15 @@ func (r *persistRule) OnInstr(e *Engine, st *State, fc *FrameCtx, in ssa.Instruc
 		}
 		return false
 	}
+	if isCancelFuncCall(e, c) {
+		s.Cx = 'y'
+		st.Note(in.Pos(), "cancel function of the derived context called")
+		return false
+	}
 	if c.IsInvoke() && c.Method.Name() == "Append" && isNamed(c.Value.Type(), PkgBus, "EventStore") {
+		if s.Cx == 'y' {
+			e.Report(st, in.Pos(), "persist-fn/append/context-still-live", "the cancel function of the context derived for the append has already run when Append is called (e.g. a helper that defers cancel and returns the context): a store that honours the context rejects every append")
+		}
 		s.A++
 		r.sites["append"] = in.Pos()
 		st.Note(in.Pos(), "EventStore.Append")
@@ -262,6 +278,28 @@ func (r *persistRule) isEventParam(v ssa.Value) bool {
 }
 
 // findCall follows value-preserving steps from v to a call of the named function.
+// isCancelFuncCall: a dynamic call of the CancelFunc returned by context.WithTimeout /
+// WithCancel / WithDeadline (directly or through a local cell).
+func isCancelFuncCall(e *Engine, c *ssa.CallCommon) bool {
+	if !isDynamicCall(c) {
+		return false
+	}
+	v := stripConv(c.Value)
+	if ld, ok := v.(*ssa.UnOp); ok && ld.Op == token.MUL {
+		if a := e.allocOf(ld.X); a != nil {
+			if ss := e.cells.stores[a]; len(ss) == 1 {
+				v = stripConv(ss[0])
+			}
+		}
+	}
+	ex, ok := v.(*ssa.Extract)
+	if !ok || ex.Index != 1 {
+		return false
+	}
+	call, ok := ex.Tuple.(*ssa.Call)
+	return ok && strings.HasPrefix(calleeName(call.Common()), "context.With")
+}
+
 func findCall(v ssa.Value, name string) *ssa.Call {
 	for i := 0; i < 6; i++ {
 		v = stripConv(v)
@@ -414,7 +452,7 @@ func runPersist(c *Ctx, p *Prog, R *BusRoles, want map[string]string) {
 			return "C09.R3"
 		case has("under-store-lock"), has("same-region"), has("store-lock-released"), has("lastOffset/on-success"), has("lastOffset/value"):
 			return "C09.R4"
-		case has("append/synchronous"), has("append/exactly-once"):
+		case has("append/synchronous"), has("append/exactly-once"), has("append/context-still-live"):
 			return "C09.R2"
 		case has("append/"):
 			return "C13.R1"
